@@ -82,8 +82,11 @@ func (t *AppendOnlyTree) AddLeaf(tx dbtypes.Txer, blockNum, blockPosition uint64
 	}
 	t.lastIndex++
 	tx.AddRollbackCallback(func() {
-		log.Debugf("decreasing index due to rollback")
-		t.lastIndex--
+		// lastLeftCache may already hold hashes of the leaves that are being rolled back
+		// (and of leaves added after this one in the same tx), so decreasing lastIndex is not enough:
+		// force initCache to rebuild the cache from the DB on the next AddLeaf
+		log.Debugf("invalidating cache due to rollback")
+		t.lastIndex = -2
 	})
 	return nil
 }
